@@ -58,6 +58,30 @@ Theorem C14_add : forall s i x ob, alookup x (heap s) = Some ob ->
        replica s' i k x.
 Proof. exact add_spec. Qed.
 
+(* add refused by the file system (OSError at the open of the temporary file, at the write or at
+   os.replace - point p): the answer is the KeyError of a duplicate or the OSError, and nothing changes:
+   no document, no live object's content or source, no instance's cache.  In particular the object
+   stays unbound, so a later commit()/update() of it does not touch the document somebody else may
+   have stored under the id meanwhile. *)
+Theorem C14_add_fault : forall s i x p ob, alookup x (heap s) = Some ob ->
+  fst (step s (AddFault i x p)) = s /\
+  snd (step s (AddFault i x p)) = (if amem (okey ob) (fs s) then ODup (okey ob) else OFault (okey ob)).
+Proof. exact add_fault_spec. Qed.
+
+(* ... and the rest of any history runs as if the refused add had not been issued *)
+Theorem C14_add_fault_transparent : forall s i x p ops,
+  exec s (AddFault i x p :: ops) = exec s ops /\
+  outs s (AddFault i x p :: ops) = snd (step s (AddFault i x p)) :: outs s ops.
+Proof. exact add_fault_transparent. Qed.
+
+(* Non-vacuity: a refused add of a free id, the other instance stores another object under the id,
+   the first object is changed and committed: the document is the other instance's. *)
+Example C14_add_fault_example :
+  let ops := [New 1 1; AddFault 0 0 2; New 1 2; Add 1 1; SetVal 0 4; Commit 0; Update 0] in
+  outs init ops = [OUnit; OFault 1; OUnit; OAdded 1 2; OUnit; OUnit; OUnit] /\
+  fs (run ops) = [(1, 2)] /\ alookup 0 (heap (run ops)) = Some (mkobj 1 4 SNone).
+Proof. vm_compute. repeat split; reflexivity. Qed.
+
 (* discard through any instance (also one that never cached the object): a missing id is
    KeyError and nothing changes; otherwise the document is gone, no other document changes, the
    object is unbound and every instance answers KeyError for the id. *)
